@@ -75,6 +75,11 @@ int fp2_upk(fp2_t c, const fp2_t a) {
 			/* a1 = sqrt(a_0^2). */
 			result = fp_srt(t, t);
 
+			/* Zero has no negative: refuse the sign bit asking for it. */
+			if (result && fp_is_zero(t) && b == 1) {
+				result = 0;
+			}
+
 			if (result) {
 				/* Verify if least significant bit of the result matches the
 				 * compressed second coordinate. */
